@@ -290,10 +290,9 @@ impl<'p> Ev<'p> {
                 return unspec("duplicate declaration");
             }
             if let Some(i) = decls.first() {
-                if n == "concat" {
-                    return unspec("declaration shadows a built-in");
-                }
-                // A declaration wins over an unqualified import of the same name (the
+                // A declaration wins over a built-in of the same name (the statement orders
+                // them: declaration, import, built-in), and
+                // a declaration wins over an unqualified import of the same name (the
                 // compiler may also report the pair as a duplicate).
                 return self.decl(env.module, *i, ann);
             }
@@ -1273,9 +1272,7 @@ impl Res<'_> {
                 return Bind::Binder(*i);
             }
             if let Some(i) = self.decls[module].get(n) {
-                if n == "concat" {
-                    return Bind::Unspecified("declaration shadows a built-in");
-                }
+                // also when the name is that of a built-in: the declaration comes first
                 return Bind::Binder(*i);
             }
         }
@@ -1409,9 +1406,9 @@ pub fn resolve(p: &Program, printed: &Printed) -> Resolution {
     for mi in 0..p.modules.len() {
         let names: Vec<String> = r.decls[mi].keys().cloned().collect();
         for n in names {
-            if n == "concat" {
-                r.out.unspecified = Some("declaration shadows a built-in");
-            } else if !r.imported(mi, &None, &n).is_empty() {
+            if n == "concat" || !r.imported(mi, &None, &n).is_empty() {
+                // the declaration must win if the program is accepted; reporting the pair as a
+                // duplicate is tolerated
                 r.out.decl_vs_import = true;
             }
         }
